@@ -41,8 +41,22 @@ def run(ctx):
     for line, kind in res["mismatches"]:
         e = evs[line - 1]
         ctx.violation(f"emit:{kind}", f"emitted frame contradicts the specification ({kind}): routes differing {e['routes_differing']}, parsers differing {e['parsers_differing']}, header bytes {e['hb']}", e)
+    # server-side emission routes: the same responses must come out of the blocking and async TCP servers (with and
+    # without their timeouts configured) and the WebSocket server, field for field (C03's engine, a short run)
+    tr2, sm2 = ctx.work / "c01srv.ndjson", ctx.work / "c01srv.json"
+    ctx.vh("srv-c03", "--seed", ctx.seed, "--sequences", 3 if q else 12, "--len", 64, "--out", tr2, "--summary", sm2, timeout=1200)
+    res2 = ctx.tlc_trace("Trace_ServerConn", "Trace_ServerConn.cfg", tr2, timeout=900)
+    if not res2["accepted"]:
+        raise vlib.ToolError(f"server trace not consumed: {res2['detail']} line {res2['unmatched']}")
+    evs2 = vlib.read_ndjson(tr2)
+    for line, kind in res2["mismatches"]:
+        if kind not in ("cross_transport", "echo_query"):
+            continue      # other kinds (missing / extra responses, invocations) belong to C03
+        start, run_evs = vlib.run_of_line(evs2, line)
+        ctx.violation(f"emit:server:{run_evs[0].get('transport')}", f"the {run_evs[0].get('transport')} server emits a response whose fields are not the handler's / not the blocking TCP server's for the same request ({kind})", {"run_events": run_evs[:80]})
+    ctx.coverage["server_emission_runs"] = json.loads(sm2.read_text())["sequences"] * 6
     ctx.coverage["exhaustive"] = True
     ctx.coverage["explanation"] = "exhaustive over MC_RepeWire's pairwise boundary patterns of the seven free header fields x payload lengths 0..2; random frames are samples"
     ctx.assume("Rust's from_le_bytes/to_le_bytes in the harness are trusted to convert between integers and the byte tuples of the specification",
                "byte equality of large payload regions is decided by the recorder (memcmp against a keyed generator), the layout and the length equation by TLA+",
-               "server-side emission routes are exercised by C03's engine, not here")
+               "server-side emission routes: responses of the six server paths are compared with each other (fields and payload), not with the TLA+ layout")
